@@ -232,6 +232,7 @@ func genSeq(c *vh.Ctx) Case {
 	lo, hi, have := uint64(0), uint64(0), false
 	hashPool := r.Range(3, 14)
 	txPool := r.Range(2, 12)
+	dirty := r.Chance(1, 4) // sequences that may hold snapshots the encoder refuses
 	for i := 0; i < n; i++ {
 		var ts uint64
 		switch {
@@ -247,7 +248,7 @@ func genSeq(c *vh.Ctx) Case {
 		default:
 			ts = lo + r.U64()%(gap+gap/8) - pick(r, 0, gap/16)
 		}
-		sn := Snap{Ts: ts, Version: uint8(pick(r, 2, 2, 2, 2, 2, 2, 2, 2, 2, 2, 2, 0, 1, 3)), Round: cs.Number, Add: !r.Chance(1, 8)}
+		sn := Snap{Ts: ts, Version: common.SnapshotVersionCommonEncoding, Round: cs.Number, Add: !r.Chance(1, 8)}
 		if r.Chance(1, 60) {
 			sn.Round = cs.Number + 1
 		}
@@ -259,8 +260,24 @@ func genSeq(c *vh.Ctx) Case {
 		default:
 			sn.Hash = small(uint64(1 + r.Intn(hashPool)))
 		}
-		for k := pick(r, 0, 1, 1, 1, 2, 2, 3); k > 0; k-- {
-			sn.Txs = append(sn.Txs, small(uint64(1000+r.Intn(txPool))))
+		if dirty {
+			sn.Version = uint8(pick(r, 2, 2, 2, 2, 0, 1, 3))
+		}
+		for k := pick(r, 1, 1, 1, 2, 2, 3); k > 0; k-- {
+			t := small(uint64(1000 + r.Intn(txPool)))
+			if r.Chance(2, 3) {
+				t = small(uint64(2000 + 10*i + int(k))) // fresh
+			}
+			dup := false
+			for _, u := range sn.Txs {
+				dup = dup || u == t
+			}
+			if !dup || dirty {
+				sn.Txs = append(sn.Txs, t)
+			}
+		}
+		if dirty && r.Chance(1, 5) {
+			sn.Txs = nil
 		}
 		cs.Cands = append(cs.Cands, sn)
 		// the generator's own view of the window (not the oracle): assume accepted
@@ -283,6 +300,9 @@ func corpus() []Case {
 		sn := Snap{Hash: small(h), Ts: ts, Version: 2, Round: 3, Add: true}
 		for _, t := range txs {
 			sn.Txs = append(sn.Txs, small(t))
+		}
+		if len(txs) == 0 {
+			sn.Txs = []string{small(5000 + h)}
 		}
 		return sn
 	}
